@@ -107,3 +107,9 @@ func verifRoundTripList(b *TypedBucket, name string, value []interface{}) []inte
 	b.PutList(name, value, nil)
 	return b.GetList(name)
 }
+
+// maps: the scalar entries of a map are read back under their keys
+func verifRoundTripMap(b *TypedBucket, name string, value map[string]interface{}) map[string]interface{} {
+	b.PutMap(name, value, nil, true)
+	return b.GetMap(name)
+}
